@@ -154,7 +154,7 @@ fn c12_transfer_from() {
     let al = s.allowance(&from, &spender);
     kani::assert(model::auth_of(&spender), "VERIF:C07:delegated transfer needs the spender's authorisation");
     kani::assert(amount >= 0, "VERIF:C12:negative amounts are rejected");
-    kani::assert(al >= amount, "VERIF:C12:delegated transfer beyond the live allowance (absent, expired, too small) is rejected");
+    kani::assert(al >= amount, "VERIF:C12,C07:delegated transfer beyond the live allowance (absent, expired, too small) is rejected");
     kani::assert(bf >= amount, "VERIF:C12:transfer beyond the balance is rejected");
     if from == to {
         kani::assert(bal(&from) == bf, "VERIF:C12:self-transfer leaves the balance");
@@ -196,7 +196,7 @@ fn c12_burn_from() {
     let bf = s.b[s.idx(&from)];
     let al = s.allowance(&from, &spender);
     kani::assert(model::auth_of(&spender), "VERIF:C07:delegated burn needs the spender's authorisation");
-    kani::assert(amount >= 0 && al >= amount && bf >= amount, "VERIF:C12:delegated burn beyond allowance or balance is rejected");
+    kani::assert(amount >= 0 && al >= amount && bf >= amount, "VERIF:C12,C07:delegated burn beyond the holder's live allowance or balance is rejected");
     kani::assert(bal(&from) == bf - amount && s.others_unchanged(&from, &from), "VERIF:C12:burn reduces exactly one balance (and the supply) by the amount");
     if amount > 0 {
         kani::assert(s.stored_allowance(&from, &spender) == Some(model::val_of(&AllowanceValue { amount: al - amount, expiration_ledger: s.al_exp })), "VERIF:C12:allowance is reduced by exactly the amount burnt");
